@@ -6,14 +6,18 @@ parse_jaqal_output_list on a matching output list, records everything observable
 import json
 import random
 
-from . import core, passes, impl, render, execrun, project
+import numpy
+
+from . import core, passes, impl, render, execrun, project, gates
 
 CONF = {
     'struct': dict(quick=[('struct', ('H_E', 'M_E0', 'T_E', 'O_E', 3, 3), 5000), ('struct-macro', ('H_E', 'M_E1', 'T_E1', 'O_E', 2, 3), 2000),
                           ('brackets-deep', ('H_E', 'M_E0', 'T_PM', 'O_PM', 6, 4), 4000, (1500, 30)),
+                          ('loops-only', ('H_E', 'M_E0', 'T_PM', 'O_L02', 6, 3), 6000),
                           ('struct-deep', ('H_E', 'M_E1', 'T_E1', 'O_E', 7, 4), 2500, (1000, 40))],
                    thorough=[('struct', ('H_E', 'M_E0', 'T_E', 'O_E', 5, 4), 120000), ('struct-macro', ('H_E', 'M_E1', 'T_E1', 'O_E', 4, 3), 60000),
                              ('brackets', ('H_E', 'M_E0', 'T_PM', 'O_PM', 6, 4), 150000),
+                             ('loops-only', ('H_E', 'M_E0', 'T_PM', 'O_L02', 8, 4), 100000),
                              ('struct-deep', ('H_E', 'M_E1', 'T_E1', 'O_E', 9, 5), 60000, (20000, 50))]),
     'gates': dict(quick=[('gates-wide', ('H_G', 'M_G', 'T_G', 'O_G', 3, 3, 'NoGates'), 3000),
                          ('gates-deep', ('H_G', 'M_E0', 'T_G2', 'O_G2', 5, 2, 'NoGates'), 2000),
@@ -44,8 +48,8 @@ PROPS = {
     'C13': dict(conf=['par'], owned={'reject_iff_overlap', 'used_exact_circuit', 'used_exact_statement', 'vector'}, sites=('run', 'used'),
                 rule='parallel blocks with gate / sequential-block branches over 3 qubits named directly, through an alias or a '
                      'macro parameter, idle gates; non-trivial = distinct programs with a parallel block of >= 2 branches'),
-    'C15': dict(conf=['views'], owned={'as_str', 'by_str_order', 'views_agree', 'normalised', 'str_int_same', 'freq_counts'},
-                sites=('run', 'outparse', 'rerun'),
+    'C15': dict(conf=['views'], owned={'as_str', 'by_str_order', 'views_agree', 'normalised', 'normalised_sampling', 'str_int_same', 'freq_counts'},
+                sites=('run', 'outparse', 'rerun', 'approx'),
                 rule='result views of every subcircuit and readout of the C03 and C08 runs; non-trivial = accepted programs'),
 }
 
@@ -60,35 +64,47 @@ def exec_cfg(consts, invariants=('VisitsWellFormed',)):
     return s
 
 
-def enumerate_exec(rep, name, consts, wd, invariants, sim=None):
-    """exhaustive BFS, or (sim = (num, depth)) TLC's random simulation of the same machine for deep programs"""
+def enumerate_exec(rep, name, consts, wd, invariants, sim=None, budget=None, biased=False):
+    """exhaustive BFS, or (sim = (num, depth)) TLC's random simulation of the same machine for deep programs.
+    budget: a reproducible sample is taken while TLC runs (core.Sink); biased: nine tenths of it is spent on programs
+    the specification accepts (its verdict is emitted with each program), one tenth on the others."""
+    budgets = {'TRUE': budget - budget // 10, 'FALSE': budget // 10} if biased and budget else {}
+    sink = core.Sink('<<"PROG", ', budget, classify=(lambda l: l[:-2].rsplit(', ', 2)[1]) if biased else None, budgets=budgets)
     if sim:
         res = core.run_tlc('ExecEnum', exec_cfg(consts, invariants), wd, timeout=3000, workers=8,
-                           simulate='num=%d' % sim[0], depth=sim[1], tlc_seed=core.seed() + 1)
+                           simulate='num=%d' % sim[0], depth=sim[1], tlc_seed=core.seed() + 1, sink=sink)
         rep.add_model_check('ExecEnum[%s] simulate num=%d depth=%d %s' % (name, sim[0], sim[1], ' '.join(invariants)), res)
     else:
-        res = core.run_tlc('ExecEnum', exec_cfg(consts, invariants), wd, timeout=3000)
+        res = core.run_tlc('ExecEnum', exec_cfg(consts, invariants), wd, timeout=3000, sink=sink)
         rep.add_model_check('ExecEnum[%s] %s' % (name, ' '.join(invariants)), res)
-    out = []
-    for line in sorted(set(res['out'].splitlines())):       # sorted: reproducible seeded sampling
-        if line.startswith('<<"PROG", '):
-            s = line[len('<<"PROG", '):].rstrip()
-            # "<json string>", nv, accept, nq>>
-            body, nv, acc, nq = s[:-2].rsplit(', ', 3)
-            p = json.loads(json.loads(body))
-            p['natives'] = passes.natives_of_tag(p['natives'])
-            out.append({'prog': p, 'nv': int(nv), 'accept': acc == 'TRUE', 'nq': int(nq)})
+    out = passes.Progs()
+    for line in sink.all_lines():
+        s = line[len('<<"PROG", '):].rstrip()
+        # "<json string>", nv, accept, nq>>
+        body, nv, acc, nq = s[:-2].rsplit(', ', 3)
+        p = json.loads(json.loads(body))
+        p['natives'] = passes.natives_of_tag(p['natives'])
+        out.append({'prog': p, 'nv': int(nv), 'accept': acc == 'TRUE', 'nq': int(nq)})
     if not out:
         raise core.MachineryError('ExecEnum[%s] emitted nothing\n%s' % (name, res['out'][-1500:]))
+    out.total = sink.total
+    if biased:
+        rep.cov.setdefault('accepted_by_spec', {})[name] = sink.by_class.get('TRUE', 0)
+    if sink.sampled:
+        rep.cov['exhaustive'] = False
     return out
 
 
-def enumerate_explicit(rep, name, consts, wd):
-    """programs together with their explicit spelling (JaqalExec/ExecEnum!RefExpandSub), for C09"""
-    res = core.run_tlc('ExecEnum', exec_cfg(consts, ('ExplicitSameTree',)).replace('INVARIANT EmitX', 'INVARIANT EmitExplicit'), wd, timeout=3000)
+def enumerate_explicit(rep, name, consts, wd, budget=None):
+    """programs WITH A SUBCIRCUIT BLOCK together with their explicit spelling (JaqalExec/ExecEnum!RefExpandSub), for C09"""
+    sink = core.Sink('<<"XPROG", ', budget, classify=lambda l: '\\"sub\\":true' in l[11:].split('", "', 1)[0], budgets={False: 0})
+    res = core.run_tlc('ExecEnum', exec_cfg(consts, ('ExplicitSameTree',)).replace('INVARIANT EmitX', 'INVARIANT EmitExplicit'), wd, timeout=3000, sink=sink)
     rep.add_model_check('ExecEnum[%s] ExplicitSameTree' % name, res)
-    out = []
-    for line in sorted(set(res['out'].splitlines())):
+    out = passes.Progs()
+    out.total = sink.by_class.get(True, 0)
+    if sink.sampled:
+        rep.cov['exhaustive'] = False
+    for line in sink.all_lines():
         if line.startswith('<<"XPROG", '):
             body = line[len('<<"XPROG", '):].rstrip()[:-2]
             a, b = body.split('", "', 1)
@@ -147,6 +163,23 @@ def run_exec(job):
             return job_.execute()
         obs = execrun.observe(twice, seed=job['seed'])
         cases.append({'id': job['id'] + '/rerun', 'site': 'rerun', 'inp': inp, 'text': text, 'obs': obs, 'outs': []})
+    if 'approx' in job['sites'] and prog['natives']:
+        # the same program over gate definitions whose matrices are unitary only to 8 digits (the library accepts these,
+        # warning above 1e-13 and failing above 2e-6): the result views must still be normalised
+        from jaqalpaq.parser import parse_jaqal_string
+        from jaqalpaq.core.gatedef import GateDefinition
+        inject = {}
+        for n, g in gates.select([x['v'] for x in prog['natives']]).items():
+            if type(g) is GateDefinition and g.ideal_unitary is not None:
+                g = g.copy(ideal_unitary=lambda *a, _u=g.ideal_unitary: numpy.asarray(_u(*a)) * (1 - 1e-8))
+            inject[n] = g
+        c2, e2 = impl.with_cpu_limit(lambda: parse_jaqal_string(text, inject_pulses=inject, autoload_pulses=False))
+        if c2 is not None:
+            import warnings
+            with warnings.catch_warnings():
+                warnings.simplefilter('ignore', RuntimeWarning)
+                obs = execrun.observe(lambda: run_jaqal_circuit(c2), seed=job['seed'])
+            cases.append({'id': job['id'] + '/approx', 'site': 'approx', 'inp': inp, 'text': text, 'obs': obs, 'outs': []})
     if 'used' in job['sites']:
         from jaqalpaq.core.algorithm import get_used_qubit_indices
         cases.append({'id': job['id'] + '/used', 'site': 'used', 'inp': inp, 'text': text, 'obs': dict(execrun.EMPTY_OBS), 'outs': [],
@@ -195,8 +228,10 @@ def main(prop, tier):
                 budget = max(500, budget // 4)
             inv = ('VisitsWellFormed',) + (('NormPreserved',) if conf == 'gates' and tier == 'quick' and prop == 'C03' else ()) \
                 + (('DiscoverAlgRefinesRule',) if prop == 'C12' else ())
-            items = enumerate_exec(rep, name, consts, wd, inv, sim)
-            rep.cov.setdefault('enumerated_programs', {})[name] = len(items)
+            # C08, C03, C15 speak about programs that are executed: the specification's own verdict (emitted with each
+            # program) is used to spend the budget on accepted programs, plus a tenth of the budget on the others
+            items = enumerate_exec(rep, name, consts, wd, inv, sim, budget=budget, biased=prop in ('C08', 'C03', 'C15'))
+            rep.cov.setdefault('enumerated_programs', {})[name] = items.total
             if len(items) > budget:
                 items = rng.sample(items, budget)
                 rep.cov['exhaustive'] = False
@@ -265,7 +300,8 @@ def explicit_stage(rep, wd, rng, tier):
     """C09, dynamic half: a program with subcircuit blocks and its explicit spelling (computed by the specification) are
     executed with the same seed; TLC compares the two recorded executions"""
     budget = 2500 if tier == 'quick' else 60000
-    pairs = enumerate_explicit(rep, 'explicit', ('H_E', 'M_E1', 'T_E1', 'O_E', 3 if tier == 'quick' else 4, 3), wd)
+    pairs = enumerate_explicit(rep, 'explicit', ('H_E', 'M_E1', 'T_E1', 'O_E', 3 if tier == 'quick' else 4, 3), wd, budget=budget)
+    rep.cov['explicit_spelling_pairs_enumerated'] = pairs.total
     pairs = [p for p in pairs if "'sub': True" in repr(p[0]['body']) + repr(p[0]['macros'])]
     if len(pairs) > budget:
         pairs = rng.sample(pairs, budget)
